@@ -1,6 +1,7 @@
 package checks
 
 import (
+	"strings"
 	"fmt"
 	"math/rand"
 
@@ -128,6 +129,12 @@ func checkC16(c *core.Check) {
 								continue
 							}
 							g.Cases = append(g.Cases, mkReq(newCase(), m, p, nil, a))
+						}
+					}
+					// every fifth request is forwarded internally by its handler to the path of another request
+					for i := range g.Cases {
+						if t := g.Cases[(i*7+3)%len(g.Cases)].Path; i%5 == 2 && strings.HasPrefix(t, "/") {
+							g.Cases[i].Script.Forward = t
 						}
 					}
 					groups = append(groups, g)
